@@ -4,6 +4,7 @@ package tartrans
 
 // Exports for the verification harness (build tag `verif` only).
 var (
-	UnpackTarForVerif = unpackTar
-	PackTarForVerif   = packTar
+	UnpackTarForVerif   = unpackTar
+	PackTarForVerif     = packTar
+	IsTarHeaderForVerif = isTarHeader
 )
